@@ -14,8 +14,13 @@
 //  R <bucket_count> <dur_ns> | A<t>:<vhex> P<t> ...   RollingSummary through Distribution::new_summary/record_samples
 //     -> a<count>  |  p:<count>:<sumbits>:<scount>:<minbits>:<maxbits>:<q,q,..>      (one token per op)
 //        quantiles 0, 0.5, 0.9, 0.99, 1 as rendered by the exporter: snapshot.quantile(q).unwrap_or(0.0)
+//
+//  Q <qhex>                         metrics_util::parse_quantiles(&[q])[0]
+//     -> <valuebits> <labelhex> <fchex> <fdhex>   value(), label(), and Display of value / value*100 (the
+//        formatting oracle the model is given; computed here with the same expressions as quantile.rs)
 use metrics_exporter_prometheus::{Distribution, DistributionBuilder, Matcher, PrometheusBuilder};
 use metrics_util::storage::Histogram;
+use metrics_util::parse_quantiles;
 use std::collections::HashMap;
 use std::io::{BufRead, Write};
 use std::num::NonZeroU32;
@@ -166,12 +171,24 @@ fn roll_case(rest: &str) -> String {
     out.join(" ")
 }
 
+fn hexs(s: &str) -> String {
+    if s.is_empty() { "-".to_string() } else { s.bytes().map(|b| format!("{:02x}", b)).collect() }
+}
+
+fn quant_case(rest: &str) -> String {
+    let q = f(rest.trim());
+    let qs = parse_quantiles(&[q]);
+    let v = qs[0].value();
+    format!("{} {} {} {}", bits(v), hexs(qs[0].label()), hexs(&format!("{}", v)), hexs(&format!("{}", v * 100.0)))
+}
+
 fn run_case(line: &str) -> String {
     let (k, rest) = line.split_at(1);
     match k {
         "H" => hist_case(rest),
         "D" => dist_case(rest),
         "R" => roll_case(rest),
+        "Q" => quant_case(rest),
         _ => panic!("bad case kind"),
     }
 }
